@@ -8,9 +8,9 @@ Outbound world: the real `Outbound` (and real `PullToPush`, real `twisted Cooper
 Inbound world: a real `Manager` (its real `Inbound`/`Outbound`), real `SubChannel` objects (pause/resume/stop
   through `SubChannel.pauseProducing()` & co, open through `Manager.subchannel_local_open`, close through
   `Manager.subchannel_closed`), real `DilatedConnectionProtocol` objects as connections, each on a recording TCP
-  transport.  The oracle judges the TCP pause state against the subchannels that are NOT closed and have an
-  outstanding pause request; "only closed subchannels still hold the pause" (what the current code does, Lean:
-  `inbound_open_exact_fails_on_current`) is recorded as `obs:closed-subchannel-holds-pause`, see STRICT_CLOSED_PAUSE.
+  transport.  The oracle judges the TCP pause state, in both directions, against the subchannels that are NOT closed
+  and have an outstanding pause request (Lean: `inbound_open_exact`); environment: the application of a closed
+  subchannel does not pause again (such cases, tag `env:pause-after-close`, are correspondence-only).
 
 Operation tokens (shared with the Lean driver):
   w0 w1 (queue_and_send_record, w1 = the transport answers with pauseProducing) | P R S (transport calls
@@ -420,11 +420,6 @@ class FakeSend:
         pass
 
 
-# set to True to make "a subchannel closed while it holds a pause keeps the connection paused for ever" (the
-# behaviour of the current code, `inbound_open_exact_fails_on_current`) an oracle violation instead of an observation
-STRICT_CLOSED_PAUSE = False
-
-
 def run_in(case):
     """Real Manager (its real Inbound and Outbound), real SubChannel objects (one per scid), real
     DilatedConnectionProtocol connections on recording TCP transports.  pause/resume/stop go through
@@ -449,9 +444,12 @@ def run_in(case):
             scs[n] = SubChannel(n, m, _WormholeAddress(), SubchannelAddress("proto"))
         return scs[n]
     # the oracle's own bookkeeping (never read from Inbound)
-    asked = set()        # subchannels with an outstanding pause request
+    asked = set()        # subchannels with an outstanding pause request (a close ends the request)
     is_open = set()
-    closed = set()       # closed subchannels: their application no longer counts
+    closed = set()       # closed (and not re-opened) subchannels
+    stale = set()        # subchannels that were closed while they held a pause
+    any_closed = False
+    env_ok = True
     lines, exp, viol, tags = [], [], [], set()
     for tok in case["ops"]:
         f = tok.split()
@@ -469,13 +467,19 @@ def run_in(case):
                 cur = None
                 i.stop_using_connection()
             elif f[0] == "p":
+                if int(f[1]) in closed:
+                    # the application of a closed subchannel pausing again: outside the environment (correspondence only)
+                    env_ok = False
+                    tags.add("env:pause-after-close")
                 asked.add(int(f[1]))
                 sc_of(int(f[1])).pauseProducing()
             elif f[0] == "r":
                 asked.discard(int(f[1]))
+                stale.discard(int(f[1]))
                 sc_of(int(f[1])).resumeProducing()
             elif f[0] == "s":
                 asked.discard(int(f[1]))
+                stale.discard(int(f[1]))
                 sc_of(int(f[1])).stopProducing()
             elif f[0] == "o":
                 n = int(f[1])
@@ -487,8 +491,12 @@ def run_in(case):
                 was_open = n in is_open
                 paused_now = len(asked & is_open)
                 if was_open:
+                    any_closed = True
                     is_open.discard(n)
                     closed.add(n)
+                    if n in asked:
+                        stale.add(n)
+                        asked.discard(n)
                     tags.add("close:%s/%d-open-paused/%s" % ("paused" if n in asked else "unpaused", min(paused_now, 3),
                                                             "conn%d" % min(gen, 2) if cur else "noconn"))
                 m.subchannel_closed(n, sc_of(n))
@@ -507,12 +515,11 @@ def run_in(case):
                 viol.append(("inbound-double-signal", f"TCP transport of connection {g} told {e} twice in a row"))
             tcp_paused[g] = want
             tags.add("tcp:" + e[:2])
-        # the property: judged against the subchannels that are not closed and have asked for a pause
-        want = asked - closed
-        stale = asked & closed
-        if cur is not None:
+        # the property: paused exactly while a not-closed subchannel has an outstanding pause request
+        want = asked
+        if cur is not None and env_ok:
             if want and not tcp_paused[cur]:
-                if closed:
+                if any_closed:
                     viol.append(("inbound-open-subchannel-pause-lost",
                                  f"after {tok}: inbound reads are running although open subchannel(s) {sorted(want)} asked for a pause "
                                  f"and never resumed (closed so far: {sorted(closed)})"))
@@ -521,11 +528,9 @@ def run_in(case):
                                  f"after {tok}: subchannels asking for a pause = {sorted(want)}, TCP transport of the current connection paused = False"))
             elif not want and tcp_paused[cur]:
                 if stale:
-                    # the current code: a subchannel closed while paused holds the pause for ever
-                    tags.add("obs:closed-subchannel-holds-pause")
-                    if STRICT_CLOSED_PAUSE:
-                        viol.append(("inbound-closed-subchannel-holds-pause",
-                                     f"after {tok}: only closed subchannel(s) {sorted(stale)} hold a pause, the connection stays paused"))
+                    viol.append(("inbound-closed-subchannel-holds-pause",
+                                 f"after {tok}: nobody who is still open asks for a pause, but subchannel(s) {sorted(stale)}, closed while "
+                                 f"paused, keep the connection paused: no subchannel receives data any more"))
                 else:
                     viol.append(("inbound-pause-inexact",
                                  f"after {tok}: nobody asks for a pause, TCP transport of the current connection paused = True"))
@@ -541,6 +546,8 @@ def run_in(case):
         if s not in seen:
             seen.add(s)
             v2.append((s, msg))
+    if not env_ok:
+        v2 = [x for x in v2 if x[0] in ("inbound-internal-exception", "inbound-double-signal")]
     return Result(lines, exp, v2, sorted(tags), nontrivial=bool(log))
 
 
@@ -671,6 +678,11 @@ IN_ALPHA_C = ["use", "stop", "p 1", "p 2", "p 3", "r 1", "s 2", "c 1", "c 2", "c
 IN_ALPHA_OC = ["use", "stop", "p 1", "p 2", "r 2", "o 1", "o 2", "c 1", "c 2"]
 
 IN_CORPUS = [
+    # the only paused subchannel is closed: the connection must be resumed, or subchannel 2 never gets data (fixed by
+    # bec439a; its revert is caught here with signature inbound-closed-subchannel-holds-pause), also on the next connection
+    ["use", "o 1", "p 1", "c 1", "o 2"],
+    ["use", "o 1", "p 1", "c 1", "o 2", "stop", "use", "p 2", "r 2"],
+    ["o 1", "p 1", "c 1", "use", "o 2"],
     ["p 1", "use", "p 2", "r 1", "r 2", "p 1", "stop", "use", "s 1", "r 1", "p 1", "p 1", "stop", "r 1", "use"],
     # two applications paused, one of them closed: the other one keeps the pause, also on the next connection
     ["use", "o 1", "o 2", "p 1", "p 2", "c 1", "p 2", "stop", "use", "r 2"],
@@ -678,8 +690,6 @@ IN_CORPUS = [
     ["use", "o 1", "o 2", "o 3", "p 1", "p 2", "p 3", "stop", "use", "c 1", "c 2", "r 3"],
     # closing an unpaused subchannel, closing twice, re-opening
     ["use", "o 1", "o 2", "p 2", "c 1", "c 1", "o 1", "o 1", "r 2", "c 2"],
-    # the current code: the only paused subchannel is closed, the pause stays (witness of inbound_open_exact_fails_on_current)
-    ["use", "o 1", "p 1", "c 1", "stop", "use"],
 ]
 
 
